@@ -105,3 +105,26 @@ def _bytes_decode_idna(it, s, *a, **k):
     it.ex.assume(z3.Implies(plain, r == s.t))
     it.ex.note("lib", "bytes.decode('idna') (uninterpreted; fact: pure-ASCII input without 'xn--' decodes to itself)")
     return SStr(r)
+
+
+# ---------------------------------------------------------------------------------------------------------------
+# str.lstrip() without argument: opt-in fact (scenario option `lstrip_facts=True`) on top of the registered model:
+# a string that is empty or whose first character is not whitespace (str.isspace) is returned unchanged.
+_STR_WS = [c for c in range(0x110000) if chr(c).isspace()]
+_default_str_lstrip = METHODS.get((SStr, "lstrip"))
+
+
+def str_starts_with_space(t):
+    c = z3.StrToCode(z3.SubString(t, 0, 1))
+    return z3.And(z3.Length(t) > 0, z3.Or(*[c == k for k in _STR_WS]))
+
+
+if _default_str_lstrip is not None:
+
+    @method(SStr, "lstrip")
+    def _str_lstrip_fact(it, s, *a):
+        r = _default_str_lstrip(it, s, *a)
+        if not a and getattr(it.ex, "lstrip_facts", False) and s.concrete() is None:
+            it.ex.assume(z3.Implies(z3.Not(str_starts_with_space(s.t)), r.t == s.t))
+            it.ex.note("assumed", "str.lstrip(): unchanged when the string is empty or does not start with a whitespace character (str.isspace)")
+        return r
